@@ -179,3 +179,5 @@ func holdsAt(fl *core.Flow, body ast.Node, loc core.Loc, atom func(core.Fact) bo
 	}
 	return false
 }
+
+func token0() token.Pos { return token.NoPos }
